@@ -27,13 +27,14 @@ VACUOUS = 1e-2
 
 
 class ObjRec:
-    __slots__ = ("oid", "op", "spec", "settings", "seed", "D", "psd", "faulted", "cb", "cls", "square", "created_step", "dense0", "deps")
+    __slots__ = ("oid", "op", "spec", "settings", "seed", "D", "psd", "faulted", "cb", "cls", "square", "created_step", "dense0", "deps", "cond")
 
     def __init__(self, oid):
         self.oid = oid
         self.faulted = False
         self.cb = None
         self.dense0 = None
+        self.cond = None
 
 
 def _is_psd(D):
@@ -275,8 +276,10 @@ class World:
             refs.extend(r for r in _iter_refs(op.get("args", {})) if r in self.objs)
         refs = [r for r in dict.fromkeys(refs) if r in self.objs]
         ko = self.knockout
-        if ko and ko.get("step") == i and ko.get("obj") in self.objs:
-            world.knock_out(self.objs[ko["obj"]].op, ko["path"], ko["name"])
+        if ko and ko.get("step") == i:
+            for item in (ko.get("group") or [ko]):
+                if item.get("obj") in self.objs:
+                    world.knock_out(self.objs[item["obj"]].op, item["path"], item["name"])
         if self.scen.get("measure_entries"):
             rows = []
             for oid in refs:
@@ -285,15 +288,28 @@ class World:
                     fresh = self.rebuild(oid, {})
                 except Exception:
                     fresh = None
+                pc_err = None
                 for p, n in world.cache_entries(rec.op):
                     w = self.prov.get((oid, p, n), (None, "?", "?"))
+                    if n.startswith("@_") and p == "." and pc_err is None:
+                        # ad-hoc preconditioner cache: "full" error = does P differ from the matrix (it is an approximation by
+                        # construction when its rank is below n), "projected" error = is the cached triple self-consistent
+                        try:
+                            r_ = QUERIES["preconditioner"](rec.op, {}, rec.D, self.get_live)
+                            cl_, P_, ld_ = rec.op._preconditioner()
+                            full_ = 0.0 if P_ is None else world._rel(P_.to_dense(), rec.D)
+                            pc_err = (max(full_, 1.0 if r_.err > 5e-3 else 0.0), r_.err)
+                        except Exception:
+                            pc_err = (float("inf"), float("inf"))
                     direct_inexact = False
-                    if len(w) >= 6 and w[1] == "query" and w[4] is not None and w[5] is not None:
+                    if len(w) >= 6 and w[1] == "query" and w[4] == "exc" and w[5] == "exc":
+                        direct_inexact = True  # left behind by a query that fails on a fresh copy as well
+                    elif len(w) >= 6 and w[1] == "query" and isinstance(w[4], float) and isinstance(w[5], float):
                         # the entry was written (as result or side effect) by a query whose own answer was just as inexact on
                         # its fresh twin: the library computes garbage for this operator with or without history
                         direct_inexact = (w[5] > 1e-4 or w[5] != w[5]) and (w[4] <= max(30 * w[5], 1e-2) or w[4] == w[5] or (w[4] != w[4] and w[5] != w[5]))
                     rows.append({"step": i, "obj": oid, "path": p, "name": n, "writer": f"{w[1]}:{w[2]}", "direct_inexact": direct_inexact,
-                                 "err": world.entry_error(rec.op, p, n, fresh)})
+                                 "err": (pc_err if (n.startswith("@_") and p == ".") else world.entry_error(rec.op, p, n, fresh))})
             self.entries_by_step[i] = rows
 
     def _drain_warnings(self):
@@ -469,6 +485,11 @@ class World:
         if op["k"] == "derive":
             self.stat("derive_" + op["how"])
         after = self.update_provenance(before, (i, op["k"], what))
+        if op["k"] == "derive" and obj is self.objs[op["src"]].op:
+            # the derivation returned the parent itself (e.g. .mT of a symmetric structured operator): same object, same history
+            for (o_, p_, n_), wv in list(self.prov.items()):
+                if o_ == op["src"]:
+                    self.prov[(oid, p_, n_)] = wv
         self.check_conservation(what, exempt=(oid,))
         # O2: every factorization transplanted onto the new object is judged like a query result
         if self.mode == "C12" and not self.violations:
@@ -581,7 +602,8 @@ class World:
                 for o2 in self.objs.values():  # parents / children share sub-operators
                     if o2 is not rec and _related(o2, rec):
                         o2.faulted = True
-        self.update_provenance(before, (i, "query", qsig, qname, hres.err if hres is not None else None, fres.err if fres is not None else None))
+        self.update_provenance(before, (i, "query", qsig, qname, hres.err if hres is not None else ("exc" if hexc is not None else None),
+                                        fres.err if fres is not None else ("exc" if fexc is not None else None)))
         self.stat("queries")
         self.stat("q_" + qname)
 
@@ -644,6 +666,9 @@ class World:
         if hexc is not None and fexc is not None:
             self.stat("both_raise")
             return
+        if hexc is not None and fres is not None and not (fres.err <= VACUOUS):
+            self.stat("hist_raises_fresh_vacuous")  # the fresh copy's answer is garbage as well: nothing to compare
+            return
         if hexc is not None:
             if isinstance(hexc, (HarnessError,)):
                 raise hexc
@@ -674,7 +699,7 @@ class World:
         if not direct and op["q"] in INVERSE_QUERIES:
             # inverse functionals in the iterative regime: Lanczos noise (1e-6) is amplified by the squared condition number of
             # the (possibly concatenated / updated) matrix; cache-confusion defects still give O(1) errors
-            lim = max(lim, 2e-2, 100 * fres.err)
+            lim = max(lim, 2e-2, 100 * fres.err, 3e-5 * self._cond(rec))
         if not (hres.err <= lim):
             self.violate("C12", "value", rec.cls, qsig,
                          f"step {i}: {label}: error functional {hres.err:.3g} on the historied object vs {fres.err:.3g} on a fresh copy "
@@ -686,6 +711,17 @@ class World:
         except Exception:
             fresh = None
         self._pre_entry_errors = {f"{p}:{n}": world.entry_error(rec.op, p, n, fresh) for p, n in world.cache_entries(rec.op)}
+
+    def _cond(self, rec):
+        c = getattr(rec, "cond", None)
+        if c is None:
+            try:
+                w_ = torch.linalg.eigvalsh(rec.D.double())
+                c = float((w_[..., -1] / w_[..., 0].clamp_min(1e-300)).max())
+            except Exception:
+                c = 1.0
+            rec.cond = c
+        return c
 
     # ------------------------------------------------------------------------------------------ faults
     def _arm(self, fault, rec, fcounts, fcb_n, ftrace):
